@@ -768,7 +768,7 @@ _WHITESPACE_CHARS = [ord(b"\t"), ord(b" ")]
 
 
 def _parse_string(value: bytes) -> bytes:
-    value_array = bytearray(value.strip())
+    value_array = bytearray(value.strip(b" \t\r\n"))
     ret = bytearray()
     whitespace = bytearray()
     in_quotes = False
